@@ -164,8 +164,11 @@ def check(ctx, src):
         doc = d.items[3]
         kv = {doc.items[i].val: doc.items[i + 1] for i in range(1, len(doc.items) - 1, 2) if doc.items[i].kind == "kw"}
         ctx.check(kv.get("nullary") is not None and kv["nullary"].val == str(v) == NULLARY_DOC.get(name), "T-IDENT", f"{name}|nullary", f"({name}) is {v} in the macro, documented {kv.get('nullary').val if kv.get('nullary') else None}", R, null.lineno, detail=str(v))
-        first = d.items[4]
-        ctx.check(first.head() == "if" and first.items[2].src() == str(v), "T-IDENT", f"{name}|nullary pyops body", f"hy.pyops.{name} returns {first.items[2].src() if first.head() == 'if' else '?'} for no arguments", PY, d.line, detail=str(v))
+        ll = d.items[2]
+        rest = next((ll.items[i + 1].val for i in range(len(ll.items) - 1) if ll.items[i].is_sym("#*")), None)
+        rest = rest or next((x.items[1].val for x in ll.items if x.kind == "expr" and x.head() == "unpack-iterable" and len(x.items) == 2), None)
+        first = hysexp.value_for_count(d.items[-1], rest, 0) if rest else None
+        ctx.decide("T-IDENT", f"{name}|nullary pyops body", None if first is None else first.src() == str(v), f"hy.pyops.{name} returns {first.src() if first else '?'} for no arguments; the macro gives {v}", PY, d.line, detail=str(v))
     ctx.check(set(nd) == {n for n, r in shadow.items() if r["func"].name == "compile_maths_expression" and pattern_arity(r["pattern"])[0] == 0}, "T-IDENT", "nullary|domain",
               "the identity table does not cover exactly the operators that accept zero arguments", R, null.lineno, witness="(|) raises KeyError inside the compiler", detail=str(sorted(nd)))
     # unary cases, identified by what they build and decided by the conditions on the path to it
